@@ -149,8 +149,13 @@ def check(R, F, P, cfg):
             env = S.args_of(ts[0])[0]
             v = tables.closure_value(S, env)
             v_ = strip(v) if v is not None else None
-            # Ok(getter(state))
-            ok = isinstance(v_, tuple) and v_[0] == "agg" and v_[2].endswith("Result::Ok") and strip(v_[3][0])[0] == "call" and strip(v_[3][0])[1] == getter
+            # Ok(getter(state)), flattened by `?` - or getter(state) itself when try_state's own Ok is the one returned
+            inner_ = strip(v_[3][0]) if isinstance(v_, tuple) and v_ and v_[0] == "agg" and v_[2].endswith("Result::Ok") else v_
+            ok = isinstance(inner_, tuple) and inner_ and inner_[0] == "call" and inner_[1] == getter and "cbarg" in fmt(inner_)
+            if ok and inner_ is v_:
+                # the plain form must return try_state's result unchanged
+                rets = {fmt(strip(p_.retval())) for p_ in tables.normal_paths(S)}
+                ok = len(rets) == 1 and all(r.startswith("try_state(") for r in rets)
             det = "closure returns %s" % (fmt(v)[:80] if v is not None else "?")
             others = [x.ci["npath"] for x in effect_calls([y for y in S.call_nodes() if y.ci["k"] == "call"])]
             ok = ok and not others
